@@ -71,6 +71,70 @@ func (x *Exec) spawn(fr *frame, instr *ssa.Go, fn value, args []value) {
 }
 
 func registerSyncStubs(reg func(string, intrinsic)) {
+	// sync/atomic on integers: a read-modify-write that is also a synchronising access
+	for _, suf := range []string{"Int32", "Int64", "Uint32", "Uint64", "Uintptr"} {
+		suf := suf
+		reg("sync/atomic.Add"+suf, func(x *Exec, fr *frame, args []value) value {
+			p := args[0].(*value)
+			if x.sched != nil {
+				x.sched.syncPoint(x, p, "atomic.Add")
+				x.sched.acquire(x, p)
+			}
+			nv := x.tb.Add((*p).(*Term), args[1].(*Term))
+			*p = nv
+			if x.sched != nil {
+				x.sched.release(x, p)
+			}
+			return nv
+		})
+		reg("sync/atomic.Load"+suf, func(x *Exec, fr *frame, args []value) value {
+			p := args[0].(*value)
+			if x.sched != nil {
+				x.sched.syncPoint(x, p, "atomic.Load")
+				x.sched.acquire(x, p)
+			}
+			return *p
+		})
+		reg("sync/atomic.Store"+suf, func(x *Exec, fr *frame, args []value) value {
+			p := args[0].(*value)
+			if x.sched != nil {
+				x.sched.syncPoint(x, p, "atomic.Store")
+			}
+			*p = args[1]
+			if x.sched != nil {
+				x.sched.release(x, p)
+			}
+			return nil
+		})
+		reg("sync/atomic.Swap"+suf, func(x *Exec, fr *frame, args []value) value {
+			p := args[0].(*value)
+			if x.sched != nil {
+				x.sched.syncPoint(x, p, "atomic.Swap")
+				x.sched.acquire(x, p)
+			}
+			old := *p
+			*p = args[1]
+			if x.sched != nil {
+				x.sched.release(x, p)
+			}
+			return old
+		})
+		reg("sync/atomic.CompareAndSwap"+suf, func(x *Exec, fr *frame, args []value) value {
+			p := args[0].(*value)
+			if x.sched != nil {
+				x.sched.syncPoint(x, p, "atomic.CAS")
+				x.sched.acquire(x, p)
+			}
+			if x.branch(x.tb.Eq((*p).(*Term), args[1].(*Term))) {
+				*p = args[2]
+				if x.sched != nil {
+					x.sched.release(x, p)
+				}
+				return x.tb.True()
+			}
+			return x.tb.False()
+		})
+	}
 	// sync.Pool as a per-pool LIFO free list (one legal behaviour of the real pool; the real one may also
 	// drop items at any time — code that is only correct when items are dropped is not modelled).
 	// A Get/Put is a synchronising access to the pool.
